@@ -359,6 +359,26 @@ def match_known(known, famname, case, out):
 
 
 # ---------------------------------------------------------------- main
+def translator_tie(mod, log):
+    """Second tie (translator): regenerate the Gallina rendering of the Python functions this property's model rests on
+    (harness/pytrans.py, from REPO's current source) and compare it, function by function, with the committed coq/Gen/*.v that the
+    tie theorems (Proofs/GenTie*.v, restated in Props/Cxx.v) are about.  Returns None when the property has no translated functions."""
+    fns = getattr(mod, "TRANSLATED", None)
+    if not fns:
+        return None
+    rc, out = sh("/venv/bin/python -B %s --repo %s --check" % (os.path.join(VERIF, "harness", "pytrans.py"), REPO), 300, VERIF)
+    status = {}
+    for line in out.splitlines():
+        m = re.match(r"^(SAME|DIFF|UNTRANSLATABLE) (\S+?)(?::\s*(.*))?$", line.strip())
+        if m:
+            status[m.group(2)] = m.group(1) + ((": " + m.group(3)) if m.group(3) else "")
+    res = dict((f, status.get(f, "MISSING")) for f in fns)
+    if rc != 0 and all(v == "SAME" for v in res.values()) and not status:
+        res = dict((f, "TRANSLATOR-FAILED: " + out.strip()[-300:]) for f in fns)
+    return {"functions": res, "all_same": all(v == "SAME" for v in res.values()),
+            "changed": sorted(f for f, v in res.items() if v != "SAME")}
+
+
 def anchor_files(prop):
     for l in open(os.path.join(VERIF, "properties.jsonl")):
         p = json.loads(l)
@@ -420,6 +440,9 @@ def main(argv):
         if bad_tokens:
             proof["ok"] = False
             proof["errors"].append("forbidden tokens: " + ", ".join(bad_tokens))
+
+    tie = None if a.no_proof else translator_tie(mod, log)
+    tie_broken = bool(tie) and not tie["all_same"]
 
     # 2. correspondence cases
     records = []   # (fam, case, out)
@@ -519,7 +542,9 @@ def main(argv):
             seen_known.setdefault(kf["id"], (kf, case, "model/implementation disagreement in known class"))
             continue
         unexplained.append(i)
-    need_search = bool(unexplained) or not proof["ok"]
+    # a changed translation (the source of a translated function changed) does not by itself say the property fails: the
+    # correspondence above still ties the model to the code; it triggers the search for a failing input
+    need_search = bool(unexplained) or not proof["ok"] or tie_broken
     searched = 0
     if need_search and not any(v[1] for v in violations):
         # look for a concrete failing input of the property itself with the exact oracles
@@ -608,6 +633,7 @@ def main(argv):
             "disagreements": len(disagreements), "oracle_failures": len(oracle_fail), "oracle_checked": sum(1 for r in records if r[0].has_oracle),
             "known_findings_seen": sorted(seen_known.keys()), "search_cases": searched,
             "theorem_notes": getattr(mod, "THEOREM_NOTES", ""),
+            "translator_tie": (tie if tie else "no function of this property is covered by the translator (tie by correspondence only)"),
             "anchored_code_tied_by_this_run": (cov.report(anchor_files(prop)) if cov else "measured in the thorough tier (line coverage of the anchored files while the implementation side of the correspondence runs)"),
         },
         "assumptions": getattr(mod, "ASSUMPTIONS", []),
@@ -620,6 +646,9 @@ def main(argv):
 
     for l in known_lines:
         print(l)
+    if tie_broken:
+        print("NOTE: translator tie not re-established for %s (their source differs from the committed translation coq/Gen/*.v); "
+              "searched %d extra cases for a failing input; the model stays tied to the code by the correspondence check" % (", ".join(tie["changed"]), searched))
     print("%s tier=%s theorems=%d proof_ok=%s cases=%d coq_checked=%d disagreements=%d oracle_failures=%d nontrivial=%d wall=%.1fs (impl %.1f coq %.1f oracle %.1f)" % (
         prop, tier, nthm, proof["ok"], len(records), len(exprs), len(disagreements), len(oracle_fail), len(nontriv), time.time() - t0, t_b - t_a, t_c - t_b, t_d - t_c))
     if violations:
